@@ -1,2 +1,168 @@
--- driver stub for C12 (replaced when the model is built)
-def main : IO Unit := pure ()
+import PyramidModel.Prelude
+import PyramidModel.Lemmas.Csrf
+/-! Driver for C12: one JSON case per line.  Text = list of code points.
+
+request R = {"method":t,"scheme":t,"environ":[[t,t],…],"form":[[t,t],…],"query":[[t,t],…],
+             "stored":t|null,"fresh":t,"br":bool,"nfkc":bool}
+defaults D = null | {"require":bool,"token":t|null,"header":t|null,"safe":[t,…],"check_origin":bool,
+                     "allow_no_origin":bool,"callback":null|"true"|"false"|"put"|"noauth"}
+in : {"op":"view","explicit":bool|null,"exc_only":bool,"defaults":D,"storage":"legacy"|"session"|"cookie",
+      "trusted":[t,…],"req":R}
+     {"op":"origin","trusted":[t,…],"allow_no_origin":bool,"raises":bool,"req":R}
+     {"op":"seq","trusted":[t,…],"allow_no_origin":bool,"raises":bool,"reqs":[R,…]}
+     {"op":"token","storage":…,"token":t|null,"header":t|null,"raises":bool,"req":R}
+     {"op":"urlparse","origin":t,"br":bool,"nfkc":bool}
+out: view    {"out":"ran"|"badtoken"|"badorigin"|"valueerror"|"unicodeerror","enabled":b,"applies":b,
+              "supplied":t,"held":t,"spec":"ran"|"rejected"}
+     origin  {"out":true|false|"bad…","left":[t,…],"own":t,"spec":bool}
+     seq     {"outs":[…],"left":[t,…],"spec":[bool,…]}
+     token   {"out":…,"supplied":t,"held":t,"spec":bool}
+     urlparse{"scheme":t,"netloc":t,"bracketed":t} | {"err":"valueerror","bracketed":t} -/
+open Pyr Pyr.Csrf Lean
+
+namespace DrvC12
+
+def textOf (j : Json) : Except String Csrf.Text := do
+  let cs : List Nat ← fromJson? j
+  pure (cs.map Char.ofNat)
+
+def optText (j : Json) : Except String (Option Csrf.Text) :=
+  match j with
+  | .null => pure none
+  | _ => do pure (some (← textOf j))
+
+def textsOf (j : Json) : Except String (List Csrf.Text) :=
+  match j with
+  | .arr xs => xs.toList.mapM textOf
+  | _ => throw "expected a list of texts"
+
+def pairsOf (j : Json) : Except String (List (Csrf.Text × Csrf.Text)) :=
+  match j with
+  | .arr xs => xs.toList.mapM fun p =>
+    match p with
+    | .arr #[k, v] => do pure (← textOf k, ← textOf v)
+    | _ => throw "bad pair"
+  | _ => throw "expected a list of pairs"
+
+def jText (t : Csrf.Text) : Json := toJson (t.map Char.toNat)
+def jTexts (ts : List Csrf.Text) : Json := Json.arr (ts.map jText).toArray
+
+def parseReq (j : Json) : Except String Req := do
+  let method ← textOf (← getField j "method")
+  let scheme ← textOf (← getField j "scheme")
+  let environ ← pairsOf (← getField j "environ")
+  let form ← pairsOf (← getField j "form")
+  let query ← pairsOf (← getField j "query")
+  let stored ← optText (← getField j "stored")
+  let fresh ← textOf (← getField j "fresh")
+  let br : Bool ← getAs j "br"
+  let nfkc : Bool ← getAs j "nfkc"
+  pure { method, scheme, environ, form, query, stored, fresh, brHostOk := br, nfkcOk := nfkc }
+
+def parseStorage (j : Json) : Except String Storage :=
+  match j with
+  | .str "legacy" => pure .legacy
+  | .str "session" => pure .session
+  | .str "cookie" => pure .cookie
+  | _ => throw "bad storage"
+
+def parseCallback (j : Json) : Except String (Option (Req → Bool)) :=
+  match j with
+  | .null => pure none
+  | .str "true" => pure (some fun _ => true)
+  | .str "false" => pure (some fun _ => false)
+  | .str "put" => pure (some fun r => r.method == s "PUT")
+  | .str "noauth" => pure (some fun r => (header r (s "Authorization")).isNone)
+  | _ => throw "bad callback"
+
+def parseDefaults (j : Json) : Except String (Option Defaults) :=
+  match j with
+  | .null => pure none
+  | _ => do
+    let requireCsrf : Bool ← getAs j "require"
+    let token ← optText (← getField j "token")
+    let hdr ← optText (← getField j "header")
+    let safeMethods ← textsOf (← getField j "safe")
+    let checkOrigin : Bool ← getAs j "check_origin"
+    let allowNoOrigin : Bool ← getAs j "allow_no_origin"
+    let callback ← parseCallback (← getField j "callback")
+    pure (some { requireCsrf, token, header := hdr, safeMethods, checkOrigin, allowNoOrigin, callback })
+
+def jOut (e : Except Err Bool) : Json :=
+  match e with
+  | .ok b => toJson b
+  | .error .badToken => "badtoken"
+  | .error .badOrigin => "badorigin"
+  | .error .valueError => "valueerror"
+  | .error .unicodeError => "unicodeerror"
+
+def jOutU (e : Except Err Unit) : Json :=
+  match e with
+  | .ok _ => "ran"
+  | .error .badToken => "badtoken"
+  | .error .badOrigin => "badorigin"
+  | .error .valueError => "valueerror"
+  | .error .unicodeError => "unicodeerror"
+
+def run (j : Json) : Except String Json := do
+  let op : String ← getAs j "op"
+  match op with
+  | "view" =>
+    let explicit : Option Bool ← match (← getField j "explicit") with
+      | .null => pure none
+      | .bool b => pure (some b)
+      | _ => throw "bad explicit"
+    let exceptionOnly : Bool ← getAs j "exc_only"
+    let defaults ← parseDefaults (← getField j "defaults")
+    let storage ← parseStorage (← getField j "storage")
+    let trustedSetting ← textsOf (← getField j "trusted")
+    let r ← parseReq (← getField j "req")
+    let c : ViewCfg := { explicit, exceptionOnly, defaults, storage, trustedSetting }
+    let d := c.opts
+    pure <| Json.mkObj [
+      ("out", jOutU (csrfView c r)),
+      ("enabled", toJson (csrfEnabled c)),
+      ("applies", toJson (checksApply c r)),
+      ("supplied", jText (suppliedToken d.token d.header r)),
+      ("held", jText (heldToken storage r)),
+      ("spec", if specViewRuns c r then "ran" else "rejected")]
+  | "origin" =>
+    let trusted ← textsOf (← getField j "trusted")
+    let allowNo : Bool ← getAs j "allow_no_origin"
+    let raises : Bool ← getAs j "raises"
+    let r ← parseReq (← getField j "req")
+    let (v, left) := checkOriginSt trusted allowNo raises r
+    pure <| Json.mkObj [("out", jOut v), ("left", jTexts left), ("own", jText (ownHost r)),
+      ("spec", toJson (specOriginOk trusted allowNo r))]
+  | "seq" =>
+    let trusted ← textsOf (← getField j "trusted")
+    let allowNo : Bool ← getAs j "allow_no_origin"
+    let raises : Bool ← getAs j "raises"
+    let reqs ← match (← getField j "reqs") with
+      | .arr xs => xs.toList.mapM parseReq
+      | _ => throw "bad reqs"
+    let (vs, left) := checkOriginSeq allowNo raises trusted reqs
+    pure <| Json.mkObj [("outs", Json.arr (vs.map jOut).toArray), ("left", jTexts left),
+      ("spec", toJson (reqs.map fun r => specOriginOk trusted allowNo r))]
+  | "token" =>
+    let storage ← parseStorage (← getField j "storage")
+    let token ← optText (← getField j "token")
+    let hdr ← optText (← getField j "header")
+    let raises : Bool ← getAs j "raises"
+    let r ← parseReq (← getField j "req")
+    pure <| Json.mkObj [("out", jOut (checkToken storage token hdr raises r)),
+      ("supplied", jText (suppliedToken token hdr r)), ("held", jText (heldToken storage r)),
+      ("spec", toJson (specTokenOk storage token hdr r))]
+  | "urlparse" =>
+    let origin ← textOf (← getField j "origin")
+    let br : Bool ← getAs j "br"
+    let nfkc : Bool ← getAs j "nfkc"
+    let bracketed := bracketedHost (netlocOf (splitScheme (urlClean origin)).2)
+    match urlparse origin br nfkc with
+    | .ok p => pure <| Json.mkObj [("scheme", jText p.scheme), ("netloc", jText p.netloc), ("bracketed", jText bracketed)]
+    | .error _ => pure <| Json.mkObj [("err", "valueerror"), ("bracketed", jText bracketed)]
+  | _ => throw s!"unknown op {op}"
+
+end DrvC12
+
+def main : IO Unit := jsonDriver DrvC12.run
